@@ -329,4 +329,20 @@ class ResultFlow:
                 continue
             if not self.uses.get(l):
                 out.append((b.idx, short(t.callee()) if t.callee() else "<indirect>", t.line))
+        # results that arrive by assignment (the value of an `.await`, a moved temporary) and are then only dropped:
+        # `let _ = path.remove_file().await;`
+        seen_bb = {x[0] for x in out}
+        for l in range(self.body.arg_count + 1, len(self.body.locals)):
+            ty = self.body.local_ty(l)
+            if not (is_result_ty(ty) and tracked_err(ty)) or self.uses.get(l):
+                continue
+            for kind, bb, idx in self.tr.defs.get(l, []):
+                if kind != "assign" or bb in seen_bb:
+                    continue
+                st = self.body.blocks[bb].stmts[idx]
+                src = self.tr.rvalue(st.rv, frozenset())
+                c = call_of(src)
+                what = short(c[1]) if c and isinstance(c[1], str) else "a Result"
+                out.append((bb, what + " (awaited / moved value)", st.line))
+                seen_bb.add(bb)
         return out
